@@ -206,3 +206,20 @@ func diffBatch(c *Ctx, engine string, cases []Case, norm func(string) string) er
 	}
 	return nil
 }
+
+// Planned / Ran: coverage an engine planned for itself and what of it actually ran. A setup step
+// that fails (cannot listen, a preparatory handshake fails, a sandbox cannot be made) must not turn
+// into a quiet `continue`: the engine would complete, look green and have checked a fraction.
+// ./check compares every `planned:<what>` with `ran:<what>` in the Distribution and breaks an
+// obligation when less than 90 % ran. (Workers of the race engine write the same keys into their Dist.)
+func (c *Ctx) Planned(what string, n int) { c.Res.Distribution["planned:"+what] += n }
+func (c *Ctx) Ran(what string, n int)     { c.Res.Distribution["ran:"+what] += n }
+
+// HarnessPanic: a panic of the HARNESS (not of the library) that an engine recovered from in order to
+// go on. The cases it would have produced are lost, so ./check reports it as a broken obligation.
+func (c *Ctx) HarnessPanic(where string, p any) {
+	c.Res.Distribution["harness-panic-swallowed"]++
+	if len(c.Res.Notes) < 200 {
+		c.Res.Notes = append(c.Res.Notes, fmt.Sprintf("harness panic swallowed in %s: %v", where, p))
+	}
+}
